@@ -466,12 +466,50 @@ fn debug_last(rf: &replay::ReplayFile, out: &mut std::fs::File) {
     }
 }
 
+/// Triage aid: re-execute a replay file and print, after every transaction, each bank's position
+/// counters, share totals and the number of live (>= 1 share) positions per side.
+fn cmd_trace(args: &[String], out: &mut std::fs::File) -> i32 {
+    let Some(path) = args.get(1) else { return 2 };
+    let Ok(text) = std::fs::read_to_string(path) else { return 2 };
+    let Ok(v) = serde_json::from_str::<serde_json::Value>(&text) else { return 2 };
+    let Some(rf) = replay::ReplayFile::from_json(&v) else { return 2 };
+    let mut sim = sim::Sim::new(vec![]);
+    sim.exec.foreign = rf.foreign.clone();
+    for (i, e) in rf.events.iter().enumerate() {
+        let label = match e {
+            sim::Event::Tx(tx) => format!("tx {} {}", tx.actor, sim::tx_tag(tx)),
+            sim::Event::ForkTx(tx) => format!("fork {} {}", tx.actor, sim::tx_tag(tx)),
+            sim::Event::Advance { dt, .. } => format!("advance {dt}"),
+            sim::Event::SetAccount { why, .. } => format!("set {why}"),
+        };
+        let res = sim.apply(e.clone());
+        let r = res.map(|o| format!("{:?}", o.result.as_ref().err().map(|x| x.code))).unwrap_or_default();
+        writeln!(out, "[{i}] {label} -> {r}").ok();
+        if matches!(e, sim::Event::Tx(_)) {
+            for (bk, b) in model::all_banks(&sim.store) {
+                let mut la = 0;
+                let mut ll = 0;
+                for (_, a) in model::all_accounts(&sim.store) {
+                    for bal in a.lending_account.balances.iter().filter(|x| x.active != 0 && x.bank_pk == bk) {
+                        if model::q_w(bal.asset_shares) >= model::qi(1) { la += 1; }
+                        if model::q_w(bal.liability_shares) >= model::qi(1) { ll += 1; }
+                    }
+                }
+                writeln!(out, "     bank {} counters {}/{} live {}/{} TA {} TL {}", &bk.to_string()[..6], b.lending_position_count, b.borrowing_position_count, la, ll,
+                    model::q_str(&model::q_w(b.total_asset_shares)), model::q_str(&model::q_w(b.total_liability_shares))).ok();
+            }
+        }
+    }
+    0
+}
+
 fn main() {
     let args: Vec<String> = std::env::args().skip(1).collect();
     let mut out = out_file();
     let code = match args.first().map(|s| s.as_str()) {
         Some("check") => cmd_check(&args, &mut out),
         Some("replay") => cmd_replay(&args, &mut out),
+        Some("trace") => cmd_trace(&args, &mut out),
         _ => {
             writeln!(out, "usage: mfisim check --property <id> --tier quick|thorough [--seed N] [--runs N] [--threads N] | replay <file>").ok();
             2
